@@ -9,6 +9,7 @@ import (
 	"fmt"
 	"math"
 	"net"
+	"sync/atomic"
 	"time"
 
 	"github.com/fiorix/go-diameter/v4/diam"
@@ -78,6 +79,16 @@ type Val struct {
 	U   uint64 `json:"u,omitempty"`
 	I   int64  `json:"i,omitempty"`
 	Fam uint16 `json:"fam,omitempty"`
+	// Alt selects the alternative Go representation a caller may use for the
+	// same value: the 16-byte IPv4-mapped net.IP for IPv4 addresses.
+	Alt bool `json:"alt,omitempty"`
+}
+
+func mapped16(ip4 []byte) []byte {
+	b := make([]byte, 16)
+	b[10], b[11] = 0xff, 0xff
+	copy(b[12:], ip4)
+	return b
 }
 
 // Payload is the RFC 6733 payload of the value, by the reference codec.
@@ -151,12 +162,20 @@ func (v Val) ToDatatype() datatype.Type {
 		return datatype.Time(time.Unix(v.I, 0))
 	case TAddress:
 		switch v.Fam {
-		case 1, 2:
+		case 1:
+			if v.Alt {
+				return datatype.Address(mapped16(v.B))
+			}
+			return datatype.Address(append([]byte{}, v.B...))
+		case 2:
 			return datatype.Address(append([]byte{}, v.B...))
 		default:
 			return datatype.Address(refcodec.Address(v.Fam, v.B))
 		}
 	case TIPv4:
+		if v.Alt {
+			return datatype.IPv4(mapped16(v.B))
+		}
 		return datatype.IPv4(append([]byte{}, v.B...))
 	case TIPv6:
 		return datatype.IPv6(append([]byte{}, v.B...))
@@ -354,6 +373,52 @@ var timeEdges = []int64{refcodec.TimeMinUnix, refcodec.TimeMinUnix + 1, -1, 0, 1
 	refcodec.EraBoundaryUnix, refcodec.EraBoundaryUnix + 1, refcodec.TimeMaxUnix - 1, refcodec.TimeMaxUnix,
 	2147483647, 2147483648}
 
+// AmbAddrAvoided counts how often the generator steered away from the
+// known-finding Address class (reported in the evidence as excluded cases).
+var AmbAddrAvoided int64
+
+// ValidPayload reports whether payload is a valid wire payload of the type
+// (exact width for fixed-width types, a decodable family/length for
+// Address) and whether it falls in the known ambiguous Address class.
+func ValidPayload(typ string, payload []byte) (valid, ambiguous bool) {
+	if w := FixedWidth(typ); w != 0 {
+		return len(payload) == w, false
+	}
+	if typ == TAddress {
+		if len(payload) < 3 {
+			return false, false
+		}
+		fam := uint16(payload[0])<<8 | uint16(payload[1])
+		switch fam {
+		case 0, 65535:
+			return false, false
+		case 1:
+			return len(payload) == 6, false
+		case 2:
+			if len(payload) != 18 {
+				return false, false
+			}
+		}
+		return true, Val{T: TAddress, Fam: fam, B: payload[2:]}.AddrAmbiguous()
+	}
+	return true, false
+}
+
+// ValFromPayload builds the abstract value of a valid wire payload.
+func ValFromPayload(typ string, p []byte) Val {
+	switch typ {
+	case TUnsigned32, TInteger32, TEnumerated, TFloat32:
+		return Val{T: typ, U: uint64(refcodec.Get32(p))}
+	case TUnsigned64, TInteger64, TFloat64:
+		return Val{T: typ, U: refcodec.Get64(p)}
+	case TTime:
+		return Val{T: typ, I: refcodec.DecodeTime(p)}
+	case TAddress:
+		return Val{T: typ, Fam: uint16(p[0])<<8 | uint16(p[1]), B: append([]byte{}, p[2:]...)}
+	}
+	return Val{T: typ, B: append([]byte{}, p...)}
+}
+
 // ValueOpts tunes value generation.
 type ValueOpts struct {
 	MaxBytes     int  // cap for byte strings
@@ -401,7 +466,7 @@ func Value(t *rapid.T, typ string, o ValueOpts) Val {
 		}
 		return Val{T: typ, I: rapid.Int64Range(refcodec.TimeMinUnix, refcodec.TimeMaxUnix).Draw(t, "time")}
 	case TIPv4:
-		return Val{T: typ, B: rapid.SliceOfN(rapid.Byte(), 4, 4).Draw(t, "ipv4")}
+		return Val{T: typ, B: rapid.SliceOfN(rapid.Byte(), 4, 4).Draw(t, "ipv4"), Alt: rapid.IntRange(0, 3).Draw(t, "ipv4-mapped-repr") == 0}
 	case TIPv6:
 		return Val{T: typ, B: ipv6Bytes(t)}
 	case TAddress:
@@ -411,6 +476,7 @@ func Value(t *rapid.T, typ string, o ValueOpts) Val {
 				return v
 			}
 			// rebuild into an unambiguous neighbour instead of rejecting
+			atomic.AddInt64(&AmbAddrAvoided, 1)
 			if v.Fam == 2 {
 				v.B[0] = 0x20
 				return v
@@ -442,7 +508,7 @@ func ipv6Bytes(t *rapid.T) []byte {
 func addressValue(t *rapid.T) Val {
 	switch rapid.IntRange(0, 9).Draw(t, "addr-kind") {
 	case 0, 1, 2:
-		return Val{T: TAddress, Fam: 1, B: rapid.SliceOfN(rapid.Byte(), 4, 4).Draw(t, "ip4")}
+		return Val{T: TAddress, Fam: 1, B: rapid.SliceOfN(rapid.Byte(), 4, 4).Draw(t, "ip4"), Alt: rapid.IntRange(0, 3).Draw(t, "ip4-mapped-repr") == 0}
 	case 3, 4, 5:
 		return Val{T: TAddress, Fam: 2, B: ipv6Bytes(t)}
 	default:
@@ -506,15 +572,27 @@ func (m *Msg) RefHeader() refcodec.Header {
 func (m *Msg) RefBytes() []byte { return refcodec.EncodeMessage(m.RefHeader(), Nodes(m.AVPs), false) }
 
 // ToDiamAVP builds the AVP through the library's public constructors.
-func (a *AVP) ToDiamAVP() *diam.AVP {
+func (a *AVP) ToDiamAVP() *diam.AVP { return a.ToDiamAVPOpt(false) }
+
+// APIFlags returns the flags a caller passes to NewAVP: with dropV the V
+// bit is left out for AVPs that name a vendor (NewAVP must add it).
+func (a *AVP) APIFlags(dropV bool) uint8 {
+	if dropV && a.Vendor != 0 {
+		return a.Flags &^ 0x80
+	}
+	return a.Flags
+}
+
+// ToDiamAVPOpt is ToDiamAVP with the V bit optionally left to NewAVP.
+func (a *AVP) ToDiamAVPOpt(dropV bool) *diam.AVP {
 	if a.V.T == TGrouped {
 		g := &diam.GroupedAVP{}
 		for _, c := range a.Children {
-			g.AddAVP(c.ToDiamAVP())
+			g.AddAVP(c.ToDiamAVPOpt(dropV))
 		}
-		return diam.NewAVP(a.Code, a.Flags, a.Vendor, g)
+		return diam.NewAVP(a.Code, a.APIFlags(dropV), a.Vendor, g)
 	}
-	return diam.NewAVP(a.Code, a.Flags, a.Vendor, a.V.ToDatatype())
+	return diam.NewAVP(a.Code, a.APIFlags(dropV), a.Vendor, a.V.ToDatatype())
 }
 
 // Walk visits every AVP in document order with its depth (top level = 1).
